@@ -34,6 +34,8 @@ Definition key_eqb (a b : key) : bool := (fst a =? fst b) && (snd a =? snd b).
 Definition kmem (k : key) (l : list key) : bool := existsb (key_eqb k) l.
 Definition kremove (k : key) (l : list key) : list key := filter (fun x => negb (key_eqb k x)) l.
 
+Definition add_key (k : key) (l : list key) : list key := if kmem k l then l else l ++ [k].
+
 (* the cache: digest -> persist flag; a digest is present iff it has an entry *)
 Definition files := list (N * bool).
 Fixpoint flook (d : N) (f : files) : option bool :=
@@ -146,7 +148,7 @@ Definition exec_step (fx : bool) (k : key) (ph : ephase) (up : bool) (s : st) : 
   | ELook => if present d (s_files s) then (s, EOpen true, RNext) else (s, EClr, RMissing)     (* :160-169 *)
   | EOpen fresh =>
       if (if fx then present d (s_files s) else fresh) then (s, EUpl, RNext) else (s, EClr, RMissing)
-  | EUpl => if up then (mkst (s_files s) (s_tasks s) (if kmem k (s_back s) then s_back s else s_back s ++ [k])
+  | EUpl => if up then (mkst (s_files s) (s_tasks s) (add_key k (s_back s))
                              (s_acked s) (s_thr s), EClr, RNext)                               (* :186 *)
             else (s, ERet false, RErr)
   | EClr => (with_files s (fset d false (s_files s)), ERet true, RNext)                        (* :89 *)
@@ -170,7 +172,7 @@ Definition step_thread (fx : bool) (t : N) (th : thread) (up : bool) (s : st) : 
                      (tset t (TUp ns d UAdd) (s_thr s)), RNext)
           else (with_thr s (tremove t (s_thr s)), RErr)
       | UAdd =>                                         (* server.go:965, manager.go:127-144 *)
-          (mkst (s_files s) (if kmem (ns, d) (s_tasks s) then s_tasks s else s_tasks s ++ [(ns, d)])
+          (mkst (s_files s) (add_key (ns, d) (s_tasks s))
                 (s_back s) (s_acked s) (tset t (TUp ns d UMeta) (s_thr s)), RNext)
       | UMeta =>                                        (* server.go:970 *)
           if present d (s_files s)
@@ -178,7 +180,7 @@ Definition step_thread (fx : bool) (t : N) (th : thread) (up : bool) (s : st) : 
           else (with_thr s (tremove t (s_thr s)), RErr)
       | UAck =>
           (mkst (s_files s) (s_tasks s) (s_back s)
-                (if kmem (ns, d) (s_acked s) then s_acked s else s_acked s ++ [(ns, d)])
+                (add_key (ns, d) (s_acked s))
                 (tremove t (s_thr s)), RAck)
       end
   | TEx ns d ph =>
@@ -265,28 +267,48 @@ Definition delivered (back acked : list key) : bool := forallb (fun k => kmem k 
 Fixpoint who_look (t : N) (l : list (N * key)) : option key :=
   match l with [] => None | (x, k) :: r => if x =? t then Some k else who_look t r end.
 
-(* C31_check ops obs: on the OBSERVED results [obs] (one per op):
-   every observation satisfies the safety clause for the acknowledgements seen so far, and the last
-   observation of the trace has every acknowledged blob in its backend. *)
-Fixpoint check_from (who : list (N * key)) (acked : list key) (last_ok : bool)
-         (ops : list op) (obs : list res) : bool :=
+(* The property on the OBSERVED results [obs] (one per op), using the ops and what the
+   implementation reported only:
+   check_safety: every observation satisfies the safety clause for the acknowledgements seen so far;
+   check_final : the last observation after the last acknowledgement (every case ends with a
+                 drain: restart, healthy backend, every stored row executed) has every acknowledged
+                 blob in its backend. *)
+Fixpoint check_safety_from (who : list (N * key)) (acked : list key) (ops : list op) (obs : list res) : bool :=
   match ops, obs with
-  | [], _ => last_ok
-  | _, [] => last_ok
   | o :: ops', r :: obs' =>
       match o, r with
-      | OSpawnUp t ns d, _ => check_from ((t, (ns, d)) :: who) acked last_ok ops' obs'
+      | OSpawnUp t ns d, RNext => check_safety_from ((t, (ns, d)) :: who) acked ops' obs'
       | OStep t _, RAck =>
           match who_look t who with
-          | Some k => check_from who (if kmem k acked then acked else acked ++ [k]) false ops' obs'
+          | Some k => check_safety_from who (add_key k acked) ops' obs'
           | None => false                      (* an acknowledgement out of nowhere *)
           end
-      | OObs, RObs f tasks back =>
-          forallb (safe_key f tasks back) acked && check_from who acked (delivered back acked) ops' obs'
-      | _, _ => check_from who acked last_ok ops' obs'
+      | OObs, RObs f tasks back => forallb (safe_key f tasks back) acked && check_safety_from who acked ops' obs'
+      | _, _ => check_safety_from who acked ops' obs'
       end
+  | _, _ => true
   end.
-Definition C31_check (ops : list op) (obs : list res) : bool := check_from [] [] true ops obs.
+
+Fixpoint check_final_from (who : list (N * key)) (acked : list key) (last_ok : bool)
+         (ops : list op) (obs : list res) : bool :=
+  match ops, obs with
+  | o :: ops', r :: obs' =>
+      match o, r with
+      | OSpawnUp t ns d, RNext => check_final_from ((t, (ns, d)) :: who) acked last_ok ops' obs'
+      | OStep t _, RAck =>
+          match who_look t who with
+          | Some k => check_final_from who (add_key k acked) false ops' obs'
+          | None => false
+          end
+      | OObs, RObs f tasks back => check_final_from who acked (delivered back acked) ops' obs'
+      | _, _ => check_final_from who acked last_ok ops' obs'
+      end
+  | _, _ => last_ok
+  end.
+
+Definition check_safety (ops : list op) (obs : list res) : bool := check_safety_from [] [] ops obs.
+Definition check_final (ops : list op) (obs : list res) : bool := check_final_from [] [] true ops obs.
+Definition C31_check (ops : list op) (obs : list res) : bool := check_safety ops obs && check_final ops obs.
 
 (* ---------------------------------------------------------------- comparison of observations *)
 
@@ -308,4 +330,41 @@ Fixpoint ress_eqb (a b : list res) : bool :=
   | [], [] => true
   | x :: a', y :: b' => res_eqb x y && ress_eqb a' b'
   | _, _ => false
+  end.
+
+(* ---------------------------------------------------------------- hypotheses of the partial theorems *)
+
+(* The three conditions under which the safety clause is proved (each is necessary: see the
+   three `_refuted` theorems).  [nsof] assigns every digest its one namespace.
+   (1) one namespace per digest: every upload of d goes to namespace nsof d;
+   (2) forced cleanup of d is isolated from the uploads of d: no upload of d sets the persist flag
+       while a forced cleanup of d is between its Find and its deletion of the flag, and no forced
+       cleanup of d runs its Find while an upload of d is between set-persist and Add;
+   (3) (only for the code without the look-up repair, fx = false) no executor opens the cache
+       file through a map entry that a deletion attempt dropped after the look-up. *)
+Definition in_window (pc : fpc) : bool := match pc with FSync _ _ _ | FDelP => true | _ => false end.
+Definition fc_in_window (d : N) (l : list (N * thread)) : bool :=
+  existsb (fun x => match snd x with TFc d' pc => (d' =? d) && in_window pc | _ => false end) l.
+Definition up_at_add (d : N) (l : list (N * thread)) : bool :=
+  existsb (fun x => match snd x with TUp _ d' UAdd => d' =? d | _ => false end) l.
+
+Definition guard (nsof : N -> N) (fx : bool) (s : st) (o : op) : bool :=
+  match o with
+  | OSpawnUp _ ns d => ns =? nsof d
+  | OStep t _ =>
+      match tlook t (s_thr s) with
+      | Some (TUp _ d USetP) => negb (fc_in_window d (s_thr s))
+      | Some (TFc d FFind) => negb (up_at_add d (s_thr s))
+      | Some (TEx _ _ (EOpen false)) => fx
+      | Some (TFc _ (FSync _ (EOpen false) _)) => fx
+      | _ => true
+      end
+  | _ => true
+  end.
+
+(* every step of the history [ops] from state s respects the three conditions *)
+Fixpoint nice (nsof : N -> N) (fx : bool) (s : st) (ops : list op) : bool :=
+  match ops with
+  | [] => true
+  | o :: r => guard nsof fx s o && nice nsof fx (fst (step fx s o)) r
   end.
